@@ -409,16 +409,23 @@ func (c *c16) opGet(sm *setModel, name string, exec bool) {
 		}
 	}
 	if provenanceKnown && sm.succ[name] == nil && sumFired(c.loader) == allFiredBefore && !sm.lossy {
+		isCandidate := false
 		for i, e := range c.exts {
 			if t.Name != name+e {
 				continue
 			}
+			isCandidate = true
 			for _, e2 := range c.exts[:i] {
 				if c.files[name+e2] != nil {
 					c.env.Violate("extension-order", c.mode(sm)+":later-extension-wins", "%s returned the template of %s although the earlier candidate %s exists in the loader (loader calls of this lookup: %v)\nhistory: %s", op, t.Name, name+e2, calls, strings.Join(c.hist, " "))
 				}
 			}
 			break
+		}
+		if !isCandidate {
+			// e.g. the entry stored under the requested name "/a.jet" (for the file /a.jet.jet) answering
+			// a request for "/a", one of whose candidates is spelled "/a.jet"
+			c.env.Violate("extension-order", c.mode(sm)+":answer-is-no-candidate", "%s returned the template of %s, which is none of the candidates of that name (extensions %q; loader calls of this lookup: %v)\nhistory: %s", op, t.Name, c.exts, calls, strings.Join(c.hist, " "))
 		}
 	}
 	sm.failed[name] = false
